@@ -203,7 +203,7 @@ def emailsConstraint (query : List (Str × Str)) (s : Sess) : Prop :=
     the requested domains under `util.IsEndpointAllowed`'s rule -/
 def emailDomainsConstraint (query : List (Str × Str)) (s : Sess) : Prop :=
   extractAllowed query "allowed_email_domains".toList = [] ∨
-  ∃ l dom, s.email = l ++ '@' :: dom ∧ '@' ∉ l ∧ '@' ∉ dom ∧
+  ∃ l dom, s.email = l ++ '@' :: dom ∧ '@' ∉ l ∧ '@' ∉ dom ∧ hostnameOf dom ≠ [] ∧
     ∃ ad ∈ extractAllowed query "allowed_email_domains".toList,
       endpointMatches (hostnameOf dom) (portOf dom) ad = true
 
@@ -225,12 +225,13 @@ theorem checkAllowedEmailDomains_iff (q : List (Str × Str)) (s : Sess) :
     split at h
     · rename_i l dom hs
       obtain ⟨he, hl, hd⟩ := (splitOn_at_two _ _ _).1 hs
-      simp only [isEndpointAllowed, List.any_eq_true] at h
-      exact ⟨l, dom, he, hl, hd, h⟩
+      simp only [isEndpointAllowed, List.any_eq_true, Bool.and_eq_true, decide_eq_true_eq] at h
+      exact ⟨l, dom, he, hl, hd, h.1, h.2⟩
     · cases h
-  · rintro ⟨l, dom, he, hl, hd, h⟩
+  · rintro ⟨l, dom, he, hl, hd, hne, h⟩
     rw [(splitOn_at_two _ _ _).2 ⟨he, hl, hd⟩]
-    simpa [isEndpointAllowed, List.any_eq_true] using h
+    simp only [isEndpointAllowed, List.any_eq_true, Bool.and_eq_true, decide_eq_true_eq]
+    exact ⟨hne, h⟩
 
 /-- **authOnly_iff.**  `/oauth2/auth` answers 202 (rather than 403) for an authenticated request
     iff there is no session (request was allowed to bypass authentication) or all three
